@@ -26,7 +26,8 @@ RULE = ("programs: every typed message class and every grouped container class (
         "structurally), every avp_def entry statically cross-checked against the dictionary "
         "(exhaustive); inputs: per class {nothing set, each single definition set (exhaustive), "
         "random subsets, all} with type-directed values, list attributes of 0..3 elements, nested "
-        "containers to depth 4, undeclared extra AVPs; untyped/unknown commands: E1-built messages. "
+        "containers to depth 4, undeclared extra AVPs; encode - change attributes - encode again on one "
+        "instance vs a fresh instance in the final state; untyped/unknown commands: E1-built messages. "
         "Non-trivial: >= 1 attribute set beyond class pre-sets (typed) / >= 1 AVP (untyped); distinct "
         "by hash of the encoded bytes.")
 ASSUME = ["a declared attribute is an avp_def entry; a list attribute holds a list on a fresh instance or is annotated list[...]",
@@ -485,6 +486,44 @@ def check_typed(inv: Inv, spec, rec: Recorder, mode: str):
         rec.extra.setdefault("_defs", set()).add((k.__name__, name))
 
 
+def check_reencode_after_change(inv: Inv, spec_a, spec_b, rec: Recorder):
+    """A typed message is encoded (and read), then changed, then encoded again: the second
+    encoding must be what a fresh instance in the final state encodes to."""
+    k = inv.by_name[spec_a["cls"]]
+    if k not in inv.msgs or uses_bad_class(inv, spec_a) or uses_bad_class(inv, spec_b):
+        return
+    case = {"cls": spec_a["cls"], "first": spec_a, "then": spec_b}
+    try:
+        obj = build_obj(inv, spec_a)
+        obj.header.hop_by_hop_identifier, obj.header.end_to_end_identifier = 0x11223344, 0x55667788
+        obj.as_bytes()
+        _ = obj.avps
+        obj.find_avps((263, 0))
+        dmap = {d.attr_name: (d, is_list, preset) for (_, d, _t, is_list, preset) in inv.defs(k)}
+        for name in spec_a["attrs"]:
+            if name not in spec_b["attrs"]:
+                # back to the state of a fresh instance (class pre-set, empty list or unset)
+                setattr(obj, name, dmap[name][2] if dmap[name][2] is not None else ([] if dmap[name][1] else None))
+        for name, v in spec_b["attrs"].items():
+            setattr(obj, name, build_value(inv, dmap[name][0], v))
+        for a in spec_b["extra"]:
+            obj.append_avp(L.build_lib_avp(inv.D, a)[0])
+        got = obj.as_bytes()
+        final = {"cls": spec_a["cls"], "attrs": spec_b["attrs"], "extra": spec_a["extra"] + spec_b["extra"]}
+        fresh = build_obj(inv, final)
+        fresh.header.hop_by_hop_identifier, fresh.header.end_to_end_identifier = 0x11223344, 0x55667788
+        want = fresh.as_bytes()
+    except Exception as e:
+        rec.violation(f"C03/change-after-encode/raises/{type(e).__name__}", case, repr(e)[:300])
+        return
+    if got != want:
+        rec.violation("C03/change-after-encode/stale-encoding", case,
+                      f"{k.__name__}: after encoding once and changing attributes the message encodes to {len(got)} bytes, "
+                      f"a fresh message in the same state to {len(want)} bytes")
+    rec.case(fp("hist", hash(got), hash(want)) if spec_b["attrs"] else None, ["mode:change-after-encode"],
+             sample=lambda: {"class": spec_a["cls"], "first_attrs": sorted(spec_a["attrs"]), "then_attrs": sorted(spec_b["attrs"])})
+
+
 def spec_nest(spec) -> int:
     d = 1
     for v in spec["attrs"].values():
@@ -628,6 +667,13 @@ def shard_main(shard, nshards, tier, scale):
     hyp.run_given(st.sampled_from(classes).flatmap(lambda k: obj_spec(inv, k, 0, mode="all")),
                   lambda s: check_typed(inv, s, rec, "all"), n_all, derive_seed(PID, "all", shard), rec=rec)
 
+    # encode, change, encode again (same instance)
+    n_hist = int((6000 if thorough else 400) * scale)
+    msgs_only = inv.msgs
+    hstrat = st.sampled_from(msgs_only).flatmap(lambda k: st.tuples(obj_spec(inv, k, 0), obj_spec(inv, k, 0)))
+    hyp.run_given(hstrat, lambda ab: check_reencode_after_change(inv, ab[0], ab[1], rec), n_hist,
+                  derive_seed(PID, "hist", shard), rec=rec)
+
     # untyped / unknown commands
     codes = [c for c, k in all_commands.items() if not issubclass(k, DefinedMessage)] + [1, 999, 16000009]
     n_un = int((8000 if thorough else 500) * scale)
@@ -656,7 +702,7 @@ def run(tier, scale=1.0):
     rec.extra["definitions_excluded_by_static_findings"] = len(inv.bad_defs)
     if missing:
         rec.extra["definitions_not_covered"] = [".".join(m) for m in missing[:20]]
-    required = {"mode:single": 1, "mode:subset": 1, "mode:all": 1, "mode:none": 1, "kind:container": 1,
+    required = {"mode:change-after-encode": 1, "mode:single": 1, "mode:subset": 1, "mode:all": 1, "mode:none": 1, "kind:container": 1,
                 "kind:message": 1, "kind:untyped": 1, "with-extra": 1, "extra-code-collision": 1, "nest:4": 1,
                 "untyped:repeat": 1, "untyped:grouped": 1}
     rc = finish(rec, tier=tier, level="exploration", rule=RULE, assumptions=ASSUME, t0=t0,
